@@ -244,7 +244,24 @@ fn efg_cases(rng: &mut Rng, tree: &HNode, out: &mut Vec<Case>) {
                 if nums.len() == 2 {
                     let mut l2: Vec<String> = lines.iter().map(|s| s.to_string()).collect();
                     l2[i] = format!("{}{{ {:?} {:?} }}", &lines[i][..a], nums[0], nums[1] + delta);
-                    let name = format!("payoff-sum-perturbed-x{}", factor);
+                    // half of the cases: a large zero-sum outcome at the root (an ante every play
+                    // passes through). It moves every path total of player one by the same amount,
+                    // so the payoff range the documented tolerance refers to is unchanged - but the
+                    // range of the numbers *written in the file* is 256 times larger
+                    let mut ante = "";
+                    if rng.chance(0.5) && range > 1e-3 && range < 1e6 {
+                        if let Some(r) = (0..l2.len()).find(|j| l2[*j].starts_with("c ") || l2[*j].starts_with("p ")) {
+                            if l2[r].ends_with("} 0") {
+                                let big = 2f64.powi(range.log2().ceil() as i32 + 8);
+                                let cut = l2[r].len() - 1;
+                                // (the format has an outcome name at player and terminal nodes only)
+                                let label = if l2[r].starts_with("p ") { "\"ante\" " } else { "" };
+                                l2[r] = format!("{}99999 {}{{ {:?} {:?} }}", &l2[r][..cut], label, big, -big);
+                                ante = "-with-root-ante";
+                            }
+                        }
+                    }
+                    let name = format!("payoff-sum-perturbed{}-x{}", ante, factor);
                     push(&name, Some(l2.join("\n") + "\n"), if factor < 1.0 { Expect::Accept } else { Expect::Reject(vec![SUM_ERR]) });
                 }
             }
@@ -432,7 +449,7 @@ pub fn run(ctx: &mut Ctx) {
         }
     });
     ctx.finish(crate::report::extra(
-        "cases = corrupted inputs to the shipped binary, each derived from a valid generated file, under --input-format {json,gambit,auto}, via -i file (extensions .json/.efg/.txt) or stdin, to stdout or -o file. JSON: truncation, trailing data after a complete game (stray bracket, second document, comment), dropped/renamed required fields, wrong types, prob in {0,-1,-0.0}, all weights negative, overflowing payoff literal, garbage/empty input, wrong format selected, C11 contract violations (empty chance/player, renamed action at one node, added/dropped action, forgotten own action, relabelling across branches) written in the DSL; extra unknown fields and fields stated twice are don't-care as such, but whatever auto-detection accepts must be accepted under one of the explicit formats (auto-vs-explicit rule). Gambit: truncation at a token boundary, 1 or 3 players, wrong header, dropped action list, terminal without payoffs, chance list not summing to 1, zero/negative chance probability summing to 1, non-finite payoffs (1e999), unnamed infoset whose number is another infoset's explicit name (same player), two infoset numbers of one player with the same explicit name, one payoff perturbed by {0.5,1.01,2,100} x the documented 0.1% constant-sum tolerance (0.5x must be ACCEPTED), an interior-node outcome with a non-zero pair sum (stated in place or attached by outcome number only, payoffs stated elsewhere) that the terminals below it do not compensate, duplicate action inside a node, imperfect recall, wrong format selected, garbage. Required for invalid input: non-zero exit status that is not a signal, no result object on stdout or in the -o file, and a diagnostic containing a documented category (#json-error, #gambit-error, #auto-error, #game-error, #duplicate-infosets, #constant-sum, 'players', 'non-finite'); a documented category other than the expected one is counted, not failed. distinct = hash(input text, corruption); non-trivial = every case.",
+        "cases = corrupted inputs to the shipped binary, each derived from a valid generated file, under --input-format {json,gambit,auto}, via -i file (extensions .json/.efg/.txt) or stdin, to stdout or -o file. JSON: truncation, trailing data after a complete game (stray bracket, second document, comment), dropped/renamed required fields, wrong types, prob in {0,-1,-0.0}, all weights negative, overflowing payoff literal, garbage/empty input, wrong format selected, C11 contract violations (empty chance/player, renamed action at one node, added/dropped action, forgotten own action, relabelling across branches) written in the DSL; extra unknown fields and fields stated twice are don't-care as such, but whatever auto-detection accepts must be accepted under one of the explicit formats (auto-vs-explicit rule). Gambit: truncation at a token boundary, 1 or 3 players, wrong header, dropped action list, terminal without payoffs, chance list not summing to 1, zero/negative chance probability summing to 1, non-finite payoffs (1e999), unnamed infoset whose number is another infoset's explicit name (same player), two infoset numbers of one player with the same explicit name, one payoff perturbed by {0.5,1.01,2,100} x the documented 0.1% constant-sum tolerance (0.5x must be ACCEPTED; in half of these files a zero-sum outcome 256 x the payoff range sits at the root, which every play passes through and which leaves the range of path totals unchanged), an interior-node outcome with a non-zero pair sum (stated in place or attached by outcome number only, payoffs stated elsewhere) that the terminals below it do not compensate, duplicate action inside a node, imperfect recall, wrong format selected, garbage. Required for invalid input: non-zero exit status that is not a signal, no result object on stdout or in the -o file, and a diagnostic containing a documented category (#json-error, #gambit-error, #auto-error, #game-error, #duplicate-infosets, #constant-sum, 'players', 'non-finite'); a documented category other than the expected one is counted, not failed. distinct = hash(input text, corruption); non-trivial = every case.",
         &["validity of each corrupted input is known by construction (the harness knows what it broke); unknown extra JSON fields and duplicate JSON keys are don't-care"],
     ));
 }
